@@ -171,6 +171,13 @@ impl World for WatermarkWorld {
                 v.push(Arrival { ts: if rng.chance(1, 8) { 40 + rng.below(6) } else { rng.below(36) }, src: rng.below(2) as u8, clock_adv: 1 });
             }
             v
+        } else if rng.chance(1, 150) {
+            // one run in 150: a stream of 140-420 arrivals whose stamps keep rising (with a little jitter, so
+            // that some arrive late) — the watermark advances hundreds of times on one stream, which the
+            // streams above never do (their stamps stay below 46, so the watermark moves a few dozen times)
+            let n = 140 + rng.usize(280);
+            let step = 1 + rng.below(3);
+            (0..n as u64).map(|i| Arrival { ts: (10 + i * step).saturating_sub(rng.below(5)), src: rng.below(2) as u8, clock_adv: 1 + rng.below(2) as i64 }).collect()
         } else {
             arrivals
         };
@@ -371,6 +378,9 @@ impl World for WatermarkWorld {
             }
             if wm_after > wm_before {
                 advances += 1;
+                if advances == 129 {
+                    obs.count("probe.watermark_advanced_more_than_128_times");
+                }
             }
             m_wm = wm_after;
 
